@@ -45,6 +45,10 @@ def grammar(tier):
     if tier == "thorough":
         for shp in [(1, 1, 1, 3), (2, 2, 2, 3), (2, 1, 4, 3), (2, 2, 3, 2)]:
             vals += list(containers("r4_" + "x".join(map(str, shp)), (np.arange(np.prod(shp)).reshape(shp) * 0.1 + 0.1).tolist()))
+    vals += [("with_none3", [1.5, None, 3.5]), ("with_none2", [1.5, None]), ("with_none_nested", [[1.5, None, 3.5], [1.0, 2.0, 3.0]]),
+             ("with_none5", (1.0, 2.0, 1.5, None, 90.0)),
+             ("complex_nd3", np.array([1.5 + 2j, 2.5, 3.5])), ("complex_nd3_real", np.array([1.5 + 0j, 2.5, 3.5])),
+             ("empty_0x3", np.zeros((0, 3))), ("empty_0x3_list", np.zeros((0, 3)).tolist()), ("obj_nd3", np.array([1.5, 2.5, 3.5], dtype=object))]
     vals += [("mixed_str", [1, "a", 3]), ("neg3", [-1, 2, 3]), ("neg2", [-1, 2]), ("ragged", [[1, 2, 3], [1, 2]]),
              ("nested_extra", [[1.0, 2.0, 3.0]]), ("transposed43", np.arange(12.0).reshape(3, 4) + 0.1)]
     # cylinder segment specific
@@ -55,7 +59,8 @@ def grammar(tier):
              ("seg_full_neg", (0.5, 2, 3, -360, 0)), ("seg_str", (1, 2, 1, 0, "a"))]
     from scipy.spatial.transform import Rotation as R
 
-    vals += [("rot_single", R.from_rotvec((0.1, 0.2, 0.3))), ("rot_len1", R.from_rotvec([(0.1, 0.2, 0.3)])),
+    vals += [("rot_len0", R.from_quat(np.empty((0, 4)))),
+             ("rot_single", R.from_rotvec((0.1, 0.2, 0.3))), ("rot_len1", R.from_rotvec([(0.1, 0.2, 0.3)])),
              ("rot_len3", R.from_rotvec([(0.1, 0.2, 0.3), (0, 0, 1), (1, 0, 0)])),
              ("ff_ok", _ff_ok), ("ff_badsig", _ff_badsig), ("ff_badshape", _ff_badshape), ("ff_list", _ff_list)]
     vals += [(f"ffgen_{b}_{h}", ff_gen(b, h)) for b in FF_BEHAVIOURS for h in FF_BEHAVIOURS]
@@ -123,6 +128,8 @@ def is_rot(v):
 
 
 def orient(v):
+    if is_rot(v) and not v.single and len(v) == 0:
+        return False                         # a path has at least one step
     return v is None or is_rot(v)
 
 
@@ -145,6 +152,12 @@ def shape(v):
     if isinstance(v, (str, dict, set)) or callable(v) or is_rot(v):
         return None
     try:
+        o = np.array(v, dtype=object)
+        if o.ndim and any(x is None for x in o.ravel()):
+            return None                      # None is not a number (numpy would turn it into nan)
+        c = np.asarray(v)
+        if np.iscomplexobj(c) and np.any(c.imag != 0):
+            return None                      # complex numbers are not float compatible
         a = np.array(v, dtype=float)
     except Exception:
         return None
@@ -210,6 +223,11 @@ def nverts(n):
 
 
 def polyverts(v):
+    try:
+        if seq(v) and any(x is None for x in np.array(v, dtype=object).ravel()):
+            return AMBIG      # rows of None mark line breaks of a discontinuous Polyline (pinned by tests/test_obj_Polyline.py)
+    except Exception:
+        pass
     s = shape(v)
     return v is None or (seq(v) and s is not None and len(s) == 2 and s[1] == 3 and s[0] >= 2)
 
